@@ -27,6 +27,10 @@ def init_cases(draw, tier):
     lo, hi = draw(lab.boxes(dim, integer=draw(st.booleans())))
     c = dict(kind=kind, dim=dim, lo=lo, hi=hi, seed=draw(st.integers(0, 2 ** 20)), npop=draw(st.integers(4, 9)))
     c['some_none'] = draw(st.booleans())
+    # one-sided requests: entries given as None are documented to be replaced with the solver default (-1e3 / 1e3)
+    if c['some_none'] and kind in lab.SOLVERS:
+        c['none_lo'] = draw(st.lists(st.booleans(), min_size=dim, max_size=dim))
+        c['none_hi'] = draw(st.lists(st.booleans(), min_size=dim, max_size=dim))
     return c
 
 
@@ -36,7 +40,13 @@ def run_init(case, ctx):
     kind = case['kind']
     if kind in lab.SOLVERS:
         s = lab.make_solver(kind, dim, case['npop'])
-        s.SetRandomInitialPoints(list(lo), list(hi))
+        nlo = case.get('none_lo') or [False] * dim; nhi = case.get('none_hi') or [False] * dim
+        arg_lo = [None if n else v for v, n in zip(lo, nlo)]
+        arg_hi = [None if n else v for v, n in zip(hi, nhi)]
+        lo = [-1000.0 if n else v for v, n in zip(lo, nlo)]
+        hi = [1000.0 if n else v for v, n in zip(hi, nhi)]
+        if any(nlo) or any(nhi): ctx.label('init:one-sided')
+        s.SetRandomInitialPoints(arg_lo, arg_hi)
         pop = [lab.fvec(p) for p in s.population]
         for i, m in enumerate(pop):
             ctx.expect(lab.in_box(m, lo, hi), 'C02.initial', lambda: dict(solver=kind, member=i, x=m, lo=lo, hi=hi))
